@@ -63,7 +63,10 @@ func (o goStructObject) method(name string) (reflect.Method, bool) { //nolint:un
 
 func (o goStructObject) setValue(rt *runtime, name string, value Value) bool {
 	if idx := fieldIndexByName(reflect.Indirect(o.value).Type(), name); len(idx) == 0 {
-		return false
+		// getValue also finds exported fields by their Go name when the json tag hides them
+		if !validGoStructName(name) || !reflect.Indirect(o.value).FieldByName(name).IsValid() {
+			return false
+		}
 	}
 
 	fieldValue := o.getValue(name)
